@@ -279,6 +279,35 @@ func NormExprSubst(info *types.Info, e ast.Expr, subst map[types.Object]string) 
 		return false
 	}
 	var norm func(e ast.Expr) string
+	// what is indexed or sliced: a local that only names a field of something else
+	// (`span := loc.Span`) is printed as that field, so that introducing the alias does
+	// not change the key
+	normIndexed := func(e ast.Expr) string {
+		if id, ok := Unparen(e).(*ast.Ident); ok && isLocal(id) && Current != nil {
+			if fd := Current.EnclosingDecl(id.Pos()); fd != nil && fd.Body != nil {
+				obj := info.Uses[id]
+				var def ast.Expr
+				n := 0
+				ast.Inspect(fd.Body, func(nd ast.Node) bool {
+					if as, ok := nd.(*ast.AssignStmt); ok && len(as.Lhs) == len(as.Rhs) {
+						for i, l := range as.Lhs {
+							if li, ok := l.(*ast.Ident); ok && obj != nil && (info.Defs[li] == obj || info.Uses[li] == obj) {
+								n++
+								def = as.Rhs[i]
+							}
+						}
+					}
+					return true
+				})
+				if s, ok := Unparen(def).(*ast.SelectorExpr); ok && n == 1 {
+					if sel := info.Selections[s]; sel != nil && sel.Kind() == types.FieldVal && isPath(s.X) {
+						return norm(s)
+					}
+				}
+			}
+		}
+		return norm(e)
+	}
 	norm = func(e ast.Expr) string {
 		switch x := e.(type) {
 		case nil:
@@ -311,9 +340,9 @@ func NormExprSubst(info *types.Info, e ast.Expr, subst map[types.Object]string) 
 			}
 			return norm(x.X) + "." + x.Sel.Name
 		case *ast.IndexExpr:
-			return norm(x.X) + "[" + norm(x.Index) + "]"
+			return normIndexed(x.X) + "[" + norm(x.Index) + "]"
 		case *ast.SliceExpr:
-			s := norm(x.X) + "[" + norm(x.Low) + ":" + norm(x.High)
+			s := normIndexed(x.X) + "[" + norm(x.Low) + ":" + norm(x.High)
 			if x.Slice3 {
 				s += ":" + norm(x.Max)
 			}
